@@ -785,7 +785,7 @@ def c06(ctx):
 
 # ------------------------------------------------------------------ C16 / C17
 HR_BASE = ('Revs = {4, 3} B64s = {FALSE, TRUE} Jsonps = {FALSE, TRUE} AEs = %s\n Thresholds = {"default", "zero", "off"} Flags = {"default", "true", "false"} '
-           'Sizes = {10, 3000} Kinds = {"text", "binary"} Js = %s\n'
+           'Sizes = {10, 3000} Kinds = {"text", "binary"} Js = %s Tails = {"none", "close"}\n'
            ' Cookies = {"none", "default", "custom"} HsTransports = {"polling", "websocket"} Policies = {"none", "star", "string", "list", "regexp", "true", "false"}\n'
            ' Creds = {TRUE, FALSE} ReqOrigins = {"a", "evil", "absent"} Preflights = {TRUE, FALSE} Continues = {TRUE, FALSE} Statuses = {204, 200}\n'
            ' OuterVarys = {"none", "ae", "xorig", "lower"}\n')
@@ -807,8 +807,11 @@ def hr_run(ctx, modes, cap_quick):
         cs = tlc_cells(ctx, "HttpResp", hr_cfg(mode, q, "TRUE", "EmitCell"), "hr_" + mode)
         if q and len(cs) > cap_quick:
             import random
+            # (the cells with a packet of the transport's own in the response are few: all of them, every time)
+            keep = [c for c in cs if c.get("tail", "none") != "none"]
+            cs = [c for c in cs if c.get("tail", "none") == "none"]
             random.Random(ctx.seed).shuffle(cs)
-            cs = cs[:cap_quick]
+            cs = keep + cs[:cap_quick]
         cells += cs
     ctx.extra["cells"] = len(cells)
     trace, summ = M.go_family(ctx, "hr", behaviours=[cells], timeout=3000)
